@@ -479,7 +479,10 @@ pub fn check(ctx: &Ctx, rep: &mut Report) {
         let d = Dialect::ALL[(r % 3) as usize];
         let mut rng = ctx.rng("inject", r);
         let spec = {
-            let mut g = crate::gen::Gen::new(&mut rng, crate::gen::Cfg::text(d));
+            // identifiers / inline constants ending in a backslash: listed finding, pinned probes below
+            let mut cfg = crate::gen::Cfg::text(d);
+            cfg.trailing_backslash = false;
+            let mut g = crate::gen::Gen::new(&mut rng, cfg);
             g.statement()
         };
         rep.eval();
@@ -509,5 +512,52 @@ pub fn check(ctx: &Ctx, rep: &mut Report) {
             }
             Err(pm) => rep.violation("R.panic", d.name(), format!("inject {}", panic_sig(&pm)), json!({"panic": pm}), ctx.shard, n),
         }
+    }
+    // pinned probes of the listed finding KF-C11-trailing-backslash: the tokenizer behind inject_parameters
+    // takes a backslash in front of a closing quote for an escape in every dialect and for every kind of
+    // quote, so (a) an identifier ending in a backslash (all backends) and (b) SQLite's `ESCAPE '\'` hide
+    // the placeholders that follow
+    let pbase = (1u64 << 46) + 7;
+    for (k, d) in Dialect::ALL.iter().enumerate() {
+        let n = pbase + k as u64;
+        if (ctx.replay.is_none() && ctx.shard == 0) || ctx.replay.map(|r| r.1) == Some(n) {
+            use sea_query::*;
+            let q = Query::select()
+                .expr_as(Expr::val(1), Alias::new("dir\\"))
+                .from(Alias::new("t"))
+                .and_where(Expr::col(Alias::new("c")).eq(3))
+                .to_owned();
+            inject_probe(ctx, rep, n, *d, &q, "[identifier-ending-in-backslash]");
+        }
+    }
+    let n = pbase + 3;
+    if (ctx.replay.is_none() && ctx.shard == 0) || ctx.replay.map(|r| r.1) == Some(n) {
+        use sea_query::*;
+        let q = Query::select()
+            .column(Alias::new("a"))
+            .from(Alias::new("t"))
+            .and_where(Expr::col(Alias::new("a")).like(LikeExpr::new("a\\%b").escape('\\')))
+            .and_where(Expr::col(Alias::new("c")).eq(3))
+            .to_owned();
+        inject_probe(ctx, rep, n, Dialect::Sqlite, &q, "[like-escape-backslash-constant]");
+    }
+}
+
+fn inject_probe(ctx: &Ctx, rep: &mut Report, n: u64, d: Dialect, q: &sea_query::SelectStatement, sig: &str) {
+    rep.eval();
+    let res = guard(|| {
+        let mut inline = String::new();
+        q.build_collect_any_into(qb(d), &mut inline);
+        let (p, v) = q.build_any(qb(d));
+        let inj = inject_parameters(&p, v.0.clone(), qb(d));
+        (inline, p, v, inj)
+    });
+    match res {
+        Ok((inline, p, v, inj)) => {
+            if inj != inline {
+                rep.violation("R.inject", d.name(), sig.to_string(), json!({"sql": p, "values": format!("{:?}", v.0), "expected": inline, "got": inj}), ctx.shard, n);
+            }
+        }
+        Err(pm) => rep.violation("R.inject", d.name(), sig.to_string(), json!({"panic": pm}), ctx.shard, n),
     }
 }
